@@ -114,6 +114,8 @@ func TestC04(t *testing.T) {
 		poolSlice := drawSlicer(rt, "poolslice")
 		spec := drawSched(rt)
 		eofWith := rapid.Bool().Draw(rt, "eofwith")
+		// (and an empty read now and then: legal for an io.Reader, if discouraged)
+		zeroReads := rapid.SampledFrom([]int{0, 0, 0, 2, 3, 7}).Draw(rt, "zeroreads")
 		sigViaFile := rapid.Bool().Draw(rt, "sigviafile")
 
 		dir, cleanup := RunDir()
@@ -126,7 +128,7 @@ func TestC04(t *testing.T) {
 		s := &Sched{Spec: spec, MaxSteps: 200000}
 		var dr *DiffResult
 		s.Run(t, func() {
-			dr = Diff(oldDir, newDir, comp, DiffSeams{SourceSlice: srcSlice, Yield: s.Yield, EOFWith: eofWith, SigViaFile: sigViaFile})
+			dr = Diff(oldDir, newDir, comp, DiffSeams{SourceSlice: srcSlice, Yield: s.Yield, EOFWith: eofWith, ZeroReads: zeroReads, SigViaFile: sigViaFile})
 		})
 		if s.BudgetExceeded {
 			return
